@@ -118,7 +118,7 @@ def _optimized_interpreter(res):
     from vlib.runner import REPO
     chs = sorted(set([ch for ch, _ in VECTORS] + list(range(0, N_CHALLENGES, 4099)) +
                      list(range(11092000, 11092600)) + [N_CHALLENGES - 1]))
-    for flag in ("-O", "-OO"):
+    for flag in ("-O", "-OO", "-Werror"):
         r = subprocess.run([sys.executable, "-B", flag, "-c", _SUB, REPO, json.dumps(chs)],
                            capture_output=True, text=True)
         if r.returncode != 0:
